@@ -117,6 +117,16 @@ add("C10", "exploration", "DESIGN.md §2 C10",
     "protocol, age not refreshed; miss: current directory). Histories are sampled, not enumerated.",
     "clock movement is emulated by ageing cache files with os.utime; directory timestamps are masked")
 
+add("C11", "fault_enumeration", "DESIGN.md §2 C11",
+    "Crash-point enumeration over Hypothesis-drawn directories: every prefix length of every cache file (plus a zero-filled "
+    "file) is injected, oracle = byte equality with the uncached reference listing; a write gate records the states a "
+    "concurrent reader can observe and checks they are among the enumerated prefixes",
+    "For each sampled directory (4 quick / 60 thorough; plain, .names, .cap, abstract, ZIP parent with its index files) "
+    "the prefix lengths 0..size of each cache file are enumerated completely (~40k injected faults per quick run), each "
+    "followed by a listing through one of four protocol forms.",
+    "a crash/full disk/racing reader leaves a prefix of the writer's bytes (validated per directory by the write gate); "
+    "directories are sampled, prefixes are exhaustive")
+
 NOT_APPLICABLE = []
 
 
